@@ -114,7 +114,10 @@ def run(mod, tier, seed, replay=None):
             shards += mod.gen(rng, tier)
         shards = [[dict(c) for c in sh] for sh in shards if sh]
         _ids(shards)
-        impl, model = core.run_shards(mod.FAMILY, shards, timeout=getattr(mod, "TIMEOUT", 1800), augment=getattr(mod, "augment", None))
+        if hasattr(mod, "run_shards"):
+            impl, model = mod.run_shards(shards)
+        else:
+            impl, model = core.run_shards(mod.FAMILY, shards, timeout=getattr(mod, "TIMEOUT", 1800), augment=getattr(mod, "augment", None))
         view = getattr(mod, "view", lambda o: o)
         for si, sh in enumerate(shards):
             for ci, c in enumerate(sh):
